@@ -218,6 +218,7 @@ func randomChild(t *testing.T) {
 					sc.Bytes[d] = 300000
 				}
 			}
+			sc.Probe = true // the sender state at the last segment goes into the replay file
 			res := tcpx.Run(sc, nil)
 			run.Case(fw.Hash("random", k), res.Connected)
 			run.Count("random_fault_runs", 1)
